@@ -74,6 +74,13 @@ var c17DenyPool = []c17DenyDef{
 	{"pass(word|phrase)", []string{"my passphrase is x", "PASSWORD reset"}},
 	{`drop\s+table`, []string{"drop   table users", "DROP TABLE accounts"}},
 	{"secret[0-9]+", []string{"tell me secret42", "SECRET7 please"}},
+	// patterns are regular expressions: negated classes and anchors written with capital letters (\S \D \W \B)
+	// must keep their meaning under the case-insensitive match; every second instance is a near miss that no
+	// pattern of the pool matches (the model, not this table, decides what each text is)
+	{`api[_-]?key\s*[:=]\s*\S{8,}`, []string{"api_key = sk-a8f3k2l9q0zz", "api_key =            (blank)", "API-KEY: AbCdEf123456", "api key: short"}},
+	{`\bssn\D{0,3}\d{3}-\d{2}-\d{4}`, []string{"my SSN: 123-45-6789", "ssn 12345 see the form", "ssn#987-65-4321", "lessness 123-45-6789"}},
+	{`\Bcret\b`, []string{"it is a secret", "cret alone", "SECRET!", "the cretin"}},
+	{`token\W+[A-F0-9]{6}`, []string{"token: ab12cd", "token_ab12cd", "TOKEN = DEADBE", "token: xyz"}},
 }
 
 var c17MarkerTexts = []string{
